@@ -10,6 +10,7 @@ import (
 	"strings"
 	"testing"
 	"testing/synctest"
+	"time"
 
 	"github.com/posener/wstest"
 	"github.com/resgateio/resgate/server"
@@ -392,7 +393,6 @@ func httpRowTo(t *testing.T, cfg ScenarioCfg, row Rec, c httpCase) {
 	}
 }
 
-
 // TestTableHTTPAccess: what an access response grants, seen from outside: every combination of result / get / call /
 // error members, with and without a meta member, answered to an HTTP GET and to HTTP POST calls of two methods.
 func TestTableHTTPAccess(t *testing.T) {
@@ -513,6 +513,111 @@ func TestTableHTTPToken(t *testing.T) {
 					row["status"] = 0
 				}
 				enc.Encode(row)
+			}
+		}
+	}
+}
+
+// TestTableHTTPConn: what the temporary connection of an HTTP request leaves behind.  Whatever the outcome of the
+// request (granted, refused, failed or timed out at header auth, access, get, a referenced resource's get, or the
+// call), once the response is written nothing is outstanding or registered on the connection's behalf, and after the
+// eviction delay the cache is empty again.
+func TestTableHTTPConn(t *testing.T) {
+	enc, done := openOut(t, "httpconn")
+	defer done()
+	outs := []string{"ok", "denied", "code:test.custom", "timeout", "notFound"}
+	res := map[string]SimRes{
+		"m": {Kind: "m", M: map[string]Val{"x": {T: "p", V: "1"}}},
+		"p": {Kind: "m", M: map[string]Val{"r": {T: "r", V: "m"}, "s": {T: "r", V: "n"}}},
+		"n": {Kind: "c", C: []Val{{T: "p", V: "1"}}},
+	}
+	for _, method := range []string{"GET", "POST"} {
+		for _, target := range []string{"m", "p"} {
+			for _, hauth := range []string{"", "ok", "code:test.custom", "timeout", "direct"} {
+				for _, acc := range append([]string{"direct"}, outs...) {
+					for _, fin := range outs {
+						if fin == "denied" || (acc == "notFound" && fin != "ok") {
+							continue
+						}
+						row := Rec{"method": method, "target": target, "hauth": hauth, "access": acc, "final": fin}
+						synctest.Test(t, func(t *testing.T) {
+							cfg := ScenarioCfg{Free: true, Family: "http", Resources: res}
+							if hauth != "" {
+								cfg.HeaderAuth = "auth.login"
+							}
+							path := "/api/" + target
+							if method == "POST" {
+								path += "/act"
+							}
+							w := NewWorld(t, cfg)
+							mark := len(w.Log())
+							w.Do(Step{Op: "http", C: "h1", Method: method, Path: path})
+							nreq := 0
+							for i := 0; i < 12; i++ {
+								rs := w.mq.pendingReqs()
+								if len(rs) == 0 {
+									break
+								}
+								r := rs[len(rs)-1] // the youngest first: answers arrive out of order
+								out := fin
+								switch {
+								case r.typ == "auth" && cfg.HeaderAuth != "":
+									out = hauth
+								case r.typ == "access":
+									out = acc
+								case r.typ == "get" && r.sname != target && fin != "ok":
+									out = "ok" // the referenced resource is there; the failing one is the target
+								}
+								if r.typ == "get" && target == "p" && r.sname == "n" && fin == "timeout" {
+									out = "timeout" // ... unless the run is about timeouts: the second reference times out too
+								}
+								nreq++
+								if out == "direct" {
+									w.sim.reply(r, "ok", "", `{"status":403}`) // a meta status that answers the HTTP request by itself
+								} else {
+									w.sim.reply(r, out, "")
+								}
+								synctest.Wait()
+								w.drainFrames()
+							}
+							for _, r := range w.Log()[mark:] {
+								if r["e"] == "httpres" {
+									row["status"] = r["status"]
+								}
+							}
+							connSubs, count := 0, 0
+							for _, n := range w.mq.subNames() {
+								if strings.HasPrefix(n, "conn.") {
+									connSubs++
+								}
+							}
+							snap := w.snapshot()
+							for _, e := range snap.Cache {
+								count += e.Count
+							}
+							row["nreq"], row["pending"], row["connsubs"], row["count"], row["conns"] = nreq, len(w.mq.pendingReqs()), connSubs, count, len(snap.Conns)
+							time.Sleep(6 * time.Second)
+							synctest.Wait()
+							w.Drain()
+							time.Sleep(6 * time.Second)
+							synctest.Wait()
+							w.Drain()
+							snap = w.snapshot()
+							subsAfter := 0
+							for _, n := range w.mq.subNames() {
+								if !strings.HasPrefix(n, "system") { // the gateway's own system.* subscription stays
+									subsAfter++
+								}
+							}
+							row["cacheAfter"], row["subsAfter"], row["pendingAfter"] = len(snap.Cache), subsAfter, len(w.mq.pendingReqs())
+							w.Teardown()
+						})
+						if _, ok := row["status"]; !ok {
+							row["status"] = 0
+						}
+						enc.Encode(row)
+					}
+				}
 			}
 		}
 	}
